@@ -9,6 +9,8 @@ package baseoutput
 
 import (
 	"errors"
+	"os"
+	"syscall"
 	"time"
 
 	"github.com/relex/gotils/channels"
@@ -194,7 +196,27 @@ func verifContains(list []string, id string) bool {
 	return false
 }
 
+// SIGUSR1 delivery: signal.Notify is replaced (in the soft-reconnect harness) by a
+// recorder of the subscribed channels; the harness raises the signal itself.
+var verifSigChans []chan<- os.Signal
+
+func verifStubSignalNotify(c chan<- os.Signal, sig ...os.Signal) {
+	verifSigChans = append(verifSigChans, c)
+}
+
+func verifRaiseUSR1() {
+	for _, c := range verifSigChans {
+		select { // os/signal never blocks on a subscriber
+		case c <- syscall.SIGUSR1:
+		default:
+		}
+	}
+}
+
+var verifUSR1AtEvent = -1
+
 func verifClientScenario(byID bool, k, faults, ackQueue int, maxDuration time.Duration) {
+	verifSigChans = nil
 	defer func(v int) { defs.ForwarderMaxPendingChunksForAck = v }(defs.ForwarderMaxPendingChunksForAck)
 	defs.ForwarderMaxPendingChunksForAck = ackQueue
 	mon := &verifMonitor{byID: byID, faultsLeft: faults, ackedOK: map[string]bool{}, progress: make(chan struct{}, 64)}
@@ -212,6 +234,9 @@ func verifClientScenario(byID bool, k, faults, ackQueue int, maxDuration time.Du
 	// (connects, sends, ACK reads), or when the client has gone idle
 	stopAfter := sym.Choice("stopAfterEvents", 2*k+5)
 	for i := 0; i < stopAfter; i++ {
+		if i == verifUSR1AtEvent {
+			verifRaiseUSR1()
+		}
 		idle := false
 		select {
 		case <-mon.progress:
@@ -274,6 +299,9 @@ func verifClientScenario(byID bool, k, faults, ackQueue int, maxDuration time.Du
 	}
 	if len(mon.conns) > 1 {
 		sym.Reach("reconnected")
+		if mon.faultsLeft == faults {
+			sym.Reach("soft-reconnected") // a second connection without any fault: session age or SIGUSR1
+		}
 	}
 	sym.Reach("stopped")
 }
@@ -359,3 +387,33 @@ func VerifC01_ClientCustody() { verifClientScenario(true, 2+sym.Tier(), 2, 1, 0)
 //verif:reach stopped delivered handed-back reconnected
 //verif:paths 400000
 func VerifC19_ClientCounters() { verifClientScenario(true, 2+sym.Tier(), 2, 1, 0) }
+
+// VerifC02_SoftReconnect: the soft-reconnect triggers - maximum session age
+// (12 s of virtual time, shorter than every other idle period of the script)
+// and SIGUSR1 raised after a symbolic number of environment events - with one
+// scripted fault: the session waits for the outstanding ACKs, the leftovers go
+// to the next session first, nothing is lost, duplicated or reported early.
+//
+//verif:preempt 0
+//verif:timers 30
+//verif:clock virtual
+//verif:native off
+//verif:delays 1
+//verif:thorough delays 2
+//verif:stub os/signal.Notify verifStubSignalNotify
+//verif:reach stopped delivered handed-back reconnected soft-reconnected
+//verif:paths 400000
+func VerifC02_SoftReconnect() {
+	defer func() { verifUSR1AtEvent = -1 }()
+	maxAge := time.Duration(0)
+	switch sym.Choice("trigger", 3) {
+	case 0:
+		maxAge = 12 * time.Second
+	case 1:
+		verifUSR1AtEvent = sym.Choice("usr1AtEvent", 5)
+	case 2:
+		maxAge = 12 * time.Second
+		verifUSR1AtEvent = sym.Choice("usr1AtEvent", 5)
+	}
+	verifClientScenario(true, 2+sym.Tier(), 1, 1, maxAge)
+}
